@@ -825,8 +825,15 @@ func (x *Exec) mayCall(fn *ssa.Function) map[string]bool {
 						continue
 					}
 					if c.IsInvoke() {
+						iname := ""
 						if c.Value.Type() != nil {
-							out["("+typeName(c.Value.Type())+")."+c.Method.Name()] = true
+							iname = "(" + typeName(c.Value.Type()) + ")." + c.Method.Name()
+							out[iname] = true
+						}
+						if ifc := x.contracts[iname]; ifc != nil && !ifc.ModAll {
+							// an interface method with an assumed contract: the contract is taken to state its
+							// effects completely (no call back into the functions whose calls are being counted)
+							continue
 						}
 						if !isBenignIface(c.Value.Type()) {
 							all = true
